@@ -141,12 +141,15 @@ def gen_case(g, cid, force_kind=None):
     # a symbol that a suite-supplied [assert] instruction needs as an integer: one case in a while defines a non-integer
     bad_int = g.random() < 0.12
     case['setup'].append({'k': 'real', 'text': 'def string CASEINT = %s' % ('notAnInteger' if bad_int else '0'), 'fx': [['noop']]})
+    # a per-case value for a `timeout` instruction that the suite supplies (parsed once, shared by all cases)
+    tv = g.choice([3, 7, 50, 600])
+    case['setup'].append({'k': 'real', 'text': 'def string CASETIMEOUT = %d' % tv, 'fx': [['noop']]})
     if g.random() < 0.3:
         # the act contents stand first in the file, without a header (act is the default phase of EVERY case file,
         # whatever phase the previous case of the run ended its parsing in)
         case['layout'] = {'act_first_without_header': True}
     return {'id': cid, 'kind': kind, 'end': end, 'case': case, 'procs': procs, 'faults': faults, 'own_status': own_status,
-            'bad_int': bad_int}
+            'bad_int': bad_int, 'timeout_value': tv}
 
 
 def total_runs(tier):
@@ -204,6 +207,8 @@ def effective_case(plan, c, suite_key):
         if ph != 'setup':
             items.append({'k': 'probe', 'id': ident + '-lines', 'form': '%'})
             procs[ident + '-lines'] = {'exit': 0}
+        if ph == 'before-assert' and c.get('timeout_value') is not None:
+            items.append({'k': 'real', 'text': 'timeout = @[CASETIMEOUT]@', 'fx': [['timeout', c['timeout_value']]]})
         if ph == 'cleanup':
             eff[ph] = eff[ph] + items
         else:
@@ -257,6 +262,8 @@ def suite_text(plan, key, order=None):
             # a value computed by a transformer from a per-case symbol reaches the child as its stdin
             lines += ['run %% suite-%s-%s-lines' % (key, ph),
                       '  -stdin -contents-of -rel-home lines.txt -transformed-by filter -line-nums @[CASELINE]@']
+        if ph == 'before-assert':
+            lines += ['timeout = @[CASETIMEOUT]@']
     return '\n'.join(lines) + '\n'
 
 
